@@ -532,7 +532,7 @@ pub fn c20(o: &Opts, t: &mut Tracer) -> Value {
                     }
                     // now and then a head longer than 64 KiB, probed at selected prefix lengths
                     let giant = nfields >= 1 && nfields <= 5 && (round + extra + kind) % 6 == 0;
-                    let status: u16 = [200u16, 100, 302, 404, 999, 204][rng.gen_range(0..6)];
+                    let status: u16 = [200u16, 100, 302, 404, 999, 204, 102, 103, 101, 199, 600, 304][rng.gen_range(0..12)];
                     let request = if kind == 1 { Some(METHODS[rng.gen_range(0..9)]) } else { None };
                     let ho = HeadOpts { nfields, status, http10: rng.gen_bool(0.4), reason: rng.gen_range(0..4), loc_at: if nfields > 0 && rng.gen_bool(0.4) { Some(rng.gen_range(0..nfields)) } else { None }, request, framing: false, wild: true, giant };
                     let g = gen_head(&mut rng, &ho);
